@@ -13,6 +13,7 @@ import (
 	"os"
 	"path/filepath"
 	"sort"
+	"strconv"
 	"time"
 
 	dbm "github.com/lianxiangcloud/linkchain/libs/db"
@@ -46,9 +47,17 @@ func init() {
 			"badger batches are used once in-process (a second Write/Commit after Write or Reset panics in a goroutine the adapter spawns, which would kill the worker); the reuse pattern is exercised on badger in a child process instead",
 			"bolt auto-flushes a batch at 100000 ops and badger splits oversized batches: batch sizes here stay far below both",
 		},
-		QuickRuns: 1000, ThoroughRuns: 40000, QuickBudget: 55 * time.Second, ThoroughBudget: 15 * time.Minute,
-		Run: run, MaxProcs: 2, RunsPerProcess: 30, RunTimeout: 120 * time.Second,
+		QuickRuns: 1000, ThoroughRuns: 8000, QuickBudget: 55 * time.Second, ThoroughBudget: 15 * time.Minute,
+		Run: run, MaxProcs: envInt("DBRIG_MAXPROCS", 2), RunsPerProcess: 30, RunTimeout: 120 * time.Second,
 	})
+}
+
+// envInt lets the determinism check vary GOMAXPROCS of the workers.
+func envInt(name string, def int) int {
+	if v, err := strconv.Atoi(os.Getenv(name)); err == nil && v > 0 {
+		return v
+	}
+	return def
 }
 
 // ---------------------------------------------------------------- state
